@@ -55,7 +55,7 @@ V2Views(raw, addr) ==
          af |-> addr.k, ab |-> RlOf(V2!ViewAddressBytes(raw)), tb |-> RlOf(tb), raw |-> RlOf(raw),
          alen |-> V2!FamilySize(V2!FamilyCode(addr.k)), aempty |-> addr.k = "Unspecified",
          afsize |-> V2!FamilySize(V2!FamilyCode(addr.k)), disp |-> "-",
-         walk |-> [k |-> "ok", items |-> [i \in 1..Len(w) |-> ItemObs(w[i])] \o none3, hit_bound |-> FALSE]]
+         walk |-> [k |-> "ok", items |-> CapItems([i \in 1..Len(w) |-> ItemObs(w[i])] \o none3), n |-> Len(w) + 3, hit_bound |-> FALSE]]
 
 V2Full(r, full) ==
     IF r.k = "err"
